@@ -1,5 +1,6 @@
 import Bluge.FS
 /-! Helper lemmas for C13: symbolic evaluation of the FS interpreter on programs of the persist shape. -/
+set_option linter.unusedSimpArgs false  -- the big case splits share one simp set
 namespace Bluge.C13
 open Bluge.FS
 
